@@ -33,6 +33,7 @@ import (
 //
 // c18.wrap    blocks  path  ae  innerhdr  body  plen  ops  ret      (scripted inner handler)
 // c18.static  blocks  path  ae  siblings  content  plens            (real staticfiles.FileServer on a temp dir)
+//   ret = <status>: the handler returns (status, nil); <status>e: it returns (status, non-nil error)
 //
 // Codecs: a gzip layer is real (compress/gzip); zstd and br layers of pre-encoded bodies and of
 // sibling files are framed markers (casket never decodes them, it only relays the bytes).
